@@ -241,7 +241,7 @@ def block_part(ck, rng, thorough):
         if c:
             cases.append(c)
             m = c[0]
-            ck.case(key=('block', m['steps'], m['levels'], tuple(m['nodes']), tuple(m['nsweeps']), tuple(m['dims']), m['imex'], m['jacobi'], m['finter'], tuple(m['QI'])),
+            ck.case(key=('block', m['steps'], m['levels'], tuple(m['nodes']), tuple(m['nsweeps']), tuple(m['dims']), m['imex'], m['jacobi'], m['finter'], tuple(m['QI']), m['quad_type'], m['do_coll_update']),
                     sample=m)
     bc.eval_block_cases(ck, cases, chunk=4)
 
